@@ -3,6 +3,7 @@ package main
 import (
 	"bytes"
 	"crypto/rand"
+	"crypto/sha256"
 	"crypto/x509"
 	"errors"
 	"fmt"
@@ -238,13 +239,34 @@ func c10Build() *c10World {
 		}
 	}})
 	// --- bundle signatures: hostile signed-subset bytes, properly signed by an authority
-	subset, _ := c18W.subset.Encode()
+	// (auth-sha256 names the authority's certificate, so that an unmutated or harmlessly mutated subset gets past
+	// NewVerifier and VerifyExchange runs on it; further artifacts give the exchange's URL 0, 2 and 3 hash pairs)
+	goodSubset := *c18W.subset
+	leafSum := sha256.Sum256(fixtures.A.Leaf.Raw)
+	goodSubset.AuthSha256 = leafSum[:]
+	subset, _ := goodSubset.Encode()
 	var subFields []refbx.Field
 	c10Walk(subset, 0, 0, &subFields)
+	subArts := []*c10Artifact{{name: "signed-subset", data: subset, fields: subFields}}
+	for _, pairs := range []int{0, 2, 3} {
+		v := goodSubset
+		rh := &signature.ResponseHashes{}
+		for i := 0; i < pairs; i++ {
+			rh.Hashes = append(rh.Hashes, &signature.ResourceIntegrity{HeaderSha256: bytes.Repeat([]byte{byte(9 + i)}, 32), PayloadIntegrityHeader: "digest/mi-sha256-03"})
+		}
+		v.SubsetHashes = map[string]*signature.ResponseHashes{"https://a.test/": rh}
+		enc, err := v.Encode()
+		if err != nil {
+			continue
+		}
+		var f []refbx.Field
+		c10Walk(enc, 0, 0, &f)
+		subArts = append(subArts, &c10Artifact{name: fmt.Sprintf("signed-subset-%d-hash-pairs", pairs), data: enc, fields: f})
+	}
 	alg, _ := signingalgorithm.SigningAlgorithmForPrivateKey(fixtures.A.Key, rand.Reader)
 	auth := []*certurl.AugmentedCertificate{{Cert: fixtures.A.Leaf, OCSPResponse: []byte("o")}}
 	ex := &bundle.Exchange{Request: bundle.Request{URL: c18MustURL("https://a.test/")}, Response: c18W.bundleB2.Exchanges[0].Response}
-	w.targets = append(w.targets, &c10Target{name: "signature.NewVerifier+VerifyExchange(hostile signed subset)", artifacts: []*c10Artifact{{name: "signed-subset", data: subset, fields: subFields}}, run: func(in []byte) {
+	w.targets = append(w.targets, &c10Target{name: "signature.NewVerifier+VerifyExchange(hostile signed subset)", artifacts: subArts, run: func(in []byte) {
 		msg := append(bytes.Repeat([]byte{0x20}, 64), []byte(bversion.VersionB2.SignatureContextString())...)
 		msg = append(msg, 0)
 		msg = append(msg, in...)
